@@ -1,4 +1,125 @@
+pub mod sha256;
+pub mod b62;
 pub mod sched;
+pub mod cmd;
+pub mod vsys;
+pub mod model;
+pub mod gen;
+pub mod engine;
+pub mod history;
+pub mod drive;
+pub mod oracle;
+pub mod props;
+
+use std::time::Instant;
+use drive::{Ctx, Report, Tier};
+
+fn usage() -> i32
+{
+    eprintln!("usage: rv verif <ID> [--tier quick|thorough] [--replay <file>] [--workers N]");
+    2
+}
+
+type RunFn = fn(&Ctx) -> Report;
+type ReplayFn = fn(&Ctx, &serde_json::Value) -> Result<(), String>;
+
+fn lookup(id: &str) -> Option<(RunFn, ReplayFn)>
+{
+    match id
+    {
+        "C01" => Some((props::c01::run, props::c01::replay)),
+        "C12" => Some((props::c12::run, props::c12::replay)),
+        _ => None,
+    }
+}
+
+fn verif_main(args: &[String]) -> i32
+{
+    if args.is_empty()
+    {
+        return usage();
+    }
+    let id = args[0].clone();
+    let mut tier = match std::env::var("VERIF_TIER").ok().as_deref()
+    {
+        Some("thorough") => Tier::Thorough,
+        _ => Tier::Quick,
+    };
+    let mut replay: Option<String> = None;
+    let mut workers = std::thread::available_parallelism().map(|n| n.get()).unwrap_or(4).min(16);
+    let mut i = 1;
+    while i < args.len()
+    {
+        match args[i].as_str()
+        {
+            "--tier" if i + 1 < args.len() =>
+            {
+                tier = if args[i + 1] == "thorough" { Tier::Thorough } else { Tier::Quick };
+                i += 2;
+            }
+            "--replay" if i + 1 < args.len() =>
+            {
+                replay = Some(args[i + 1].clone());
+                i += 2;
+            }
+            "--workers" if i + 1 < args.len() =>
+            {
+                workers = args[i + 1].parse().unwrap_or(workers);
+                i += 2;
+            }
+            _ => return usage(),
+        }
+    }
+    let seed: u64 = std::env::var("VERIF_SEED").ok().and_then(|s| s.trim().parse::<i128>().ok()).map(|v| v as u64).unwrap_or(20260926);
+    let verif_dir = std::env::var("VERIF_DIR").unwrap_or_else(|_| "/verif".to_string());
+    let ctx = Ctx
+    {
+        id: id.clone(),
+        tier,
+        seed,
+        workers,
+        known: drive::load_known(&verif_dir),
+        verif_dir,
+        start: Instant::now(),
+        strict: replay.is_some(),
+    };
+    sched::install_panic_hook();
+    let (run, rep) = match lookup(&id)
+    {
+        Some(x) => x,
+        None =>
+        {
+            eprintln!("unknown property id {}", id);
+            return 2;
+        }
+    };
+    if let Some(path) = replay
+    {
+        let text = match std::fs::read_to_string(&path)
+        {
+            Ok(t) => t,
+            Err(e) => { eprintln!("cannot read {}: {}", path, e); return 2; }
+        };
+        let v: serde_json::Value = match serde_json::from_str(&text)
+        {
+            Ok(v) => v,
+            Err(e) => { eprintln!("cannot parse {}: {}", path, e); return 2; }
+        };
+        let case = v.get("case").cloned().unwrap_or(v.clone());
+        return match rep(&ctx, &case)
+        {
+            Ok(()) => { println!("replay {}: property {} held", path, id); 0 }
+            Err(m) =>
+            {
+                println!("VIOLATION property={} replay={}", id, path);
+                eprintln!("  reason: {}", m);
+                1
+            }
+        };
+    }
+    let report = run(&ctx);
+    drive::finish(&ctx, report)
+}
 
 #[no_mangle]
 pub extern "C" fn main(_argc: i32, _argv: *const *const u8) -> i32
@@ -6,8 +127,10 @@ pub extern "C" fn main(_argc: i32, _argv: *const *const u8) -> i32
     let args: Vec<String> = std::env::args().collect();
     if args.len() >= 2 && args[1] == "verif"
     {
-        println!("verif mode");
-        return 0;
+        let code = verif_main(&args[2..]);
+        use std::io::Write;
+        let _ = std::io::stdout().flush();
+        return code;
     }
     crate::main();
     use std::io::Write;
